@@ -330,3 +330,83 @@ func c10CollapseMargin(c *core.Check) {
 	}
 	r.Cond(bad == "", "collapseMargin | all arrangements of three margins", p.Pos(fn.Pos()), fmt.Sprintf("%d arrangements folded", n), bad)
 }
+
+// c10CollapseThrough: the margins of a box collapse through it only when nothing separates them (CSS 2.1 §8.3.1).
+func c10CollapseThrough(c *core.Check) {
+	p := c.Prog
+	r := c.Rule("R9", "blockContainerLayout lets the top and bottom margins of a box collapse through it only when its height is auto or 0, its min-height is 0, it has no top or bottom border, no top or bottom padding and no clearance (CSS 2.1 §8.3.1): each of these tests keeps control away from `collapsingThrough = true` when it fails", 7)
+	fn := p.Fn("html/layout", "blockContainerLayout")
+	if fn == nil {
+		r.Anchor("html/layout.blockContainerLayout")
+		return
+	}
+	// the block from which `true` flows into collapsingThrough
+	var from *ssa.BasicBlock
+	core.Instrs(fn, func(in ssa.Instruction) {
+		phi, ok := in.(*ssa.Phi)
+		if !ok || phi.Comment != "collapsingThrough" {
+			return
+		}
+		for i, e := range phi.Edges {
+			if k, ok := e.(*ssa.Const); ok && k.Value != nil && k.Value.String() == "true" {
+				from = phi.Block().Preds[i]
+			}
+		}
+	})
+	if from == nil {
+		r.Anchor("blockContainerLayout: the assignment collapsingThrough = true")
+		return
+	}
+	fieldOf := func(v ssa.Value) string {
+		for i := 0; i < 4; i++ {
+			switch x := v.(type) {
+			case *ssa.MakeInterface:
+				v = x.X
+				continue
+			case *ssa.ChangeType:
+				v = x.X
+				continue
+			case *ssa.UnOp:
+				if fa, ok := x.X.(*ssa.FieldAddr); ok {
+					return core.FieldName(fa)
+				}
+			}
+			break
+		}
+		return ""
+	}
+	atomsOf := map[string][]ssa.Value{}
+	var clearance []ssa.Value
+	for _, a := range core.CondAtoms(fn) {
+		bo, ok := a.(*ssa.BinOp)
+		if !ok || bo.Op != token.EQL {
+			continue
+		}
+		if f := fieldOf(bo.X); f != "" {
+			atomsOf[f] = append(atomsOf[f], a)
+		}
+		if call, ok := bo.X.(*ssa.Call); ok && call.Call.StaticCallee() != nil && call.Call.StaticCallee().Name() == "getClearance" {
+			clearance = append(clearance, a)
+		}
+	}
+	check := func(name string, atoms []ssa.Value) {
+		key := "blockContainerLayout | collapsing through requires " + name
+		if len(atoms) == 0 {
+			r.Fail(key, p.Pos(from.Instrs[0].Pos()), "no test of it found: margins collapse through a box that separates them")
+			return
+		}
+		assign := map[ssa.Value]bool{}
+		for _, a := range atoms {
+			assign[a] = false
+		}
+		ok := !core.ForwardReach(fn.Blocks[0], assign, nil)[from]
+		r.Cond(ok, key, p.Pos(from.Instrs[0].Pos()), "collapsingThrough = true is not reached when the test fails", "collapsingThrough = true is reached although the test fails: the margins collapse through a box that separates them")
+	}
+	check("height auto or 0", atomsOf["Height"])
+	check("min-height 0", atomsOf["MinHeight"])
+	check("no top border", atomsOf["BorderTopWidth"])
+	check("no bottom border", atomsOf["BorderBottomWidth"])
+	check("no top padding", atomsOf["PaddingTop"])
+	check("no bottom padding", atomsOf["PaddingBottom"])
+	check("no clearance", clearance)
+}
